@@ -42,7 +42,7 @@ def make_case(seed, shard, i):
         prog = g.program(ncomp=r.randint(1, 4), scan=r.choice(lang.HEADERLESS_SCANS) if headerless else None)
         if headerless:
             prog["comps"] = [lang.index_headers(c) for c in prog["comps"]]
-        prog["comment"] = lang.random_mode_comment(r, 0.4, allow=("return-mode", "unmatched-mode", "validation-mode"))
+        prog["comment"] = lang.random_mode_comment(r, 0.4, allow=("return-mode", "unmatched-mode", "validation-mode", "run-mode"))
         members.append(lang.tolist(prog))
     rows = lang.data_rows(r, header_prob=0.0 if headerless else 0.85)
     if not any(len(x) for x in rows):
@@ -61,6 +61,8 @@ def member_summary(c, events, lines, printed):
         "scan": c.scan_count,
         "match": c.match_count,
         "stopped": c.stopped,
+        # where the member's own line monitor ended: the line it is on and how many lines it has seen
+        "line_monitor": (c.line_monitor.physical_line_number, c.line_monitor.physical_line_count, c.line_monitor.data_line_count),
         "printed": list(printed),
         "lines": lines,
         "errors": sorted((e.line_count, str(e.error)[:100]) for e in (c.errors or [])),
@@ -110,7 +112,7 @@ def run_group(order, members, method, kw, agg):
     return out, lines, decisions, None
 
 
-CMP_FIELDS = ["trace", "vars", "valid", "scan", "match", "stopped", "printed", "errors"]
+CMP_FIELDS = ["trace", "vars", "valid", "scan", "match", "stopped", "line_monitor", "printed", "errors"]
 
 
 def run_case(case, agg, r):
